@@ -241,8 +241,13 @@ def extract_branch_results_with_internals(net, branch_results, table_name,
             # hint: idx_pit[placement_table] should result in the indices as ordered in the table
             pt = placement_table[connected_ind]
 
+            # the friction loss of a branch is the sum over its sections, all other values are means
+            summed_results = ("dp_friction_loss_bar",)
             for i, (res_name, entry) in enumerate(res_mean_hydraulics):
-                res_table[res_name].values[pt] = res[i + 3][connected_ind] / num_internals
+                if res_name in summed_results:
+                    res_table[res_name].values[pt] = res[i + 3][connected_ind]
+                else:
+                    res_table[res_name].values[pt] = res[i + 3][connected_ind] / num_internals
         if len(res_branch) > 0:
             # results that relate to the outlet of the whole branch: the pit holds the internal
             # sections of each table row consecutively (in table order), the internal lookup gives
